@@ -26,6 +26,39 @@ static uint64_t digest(bool withSpBest = true) {
   sum = mixh(sum, t.appliedBlockCount * 64 + (withSpBest ? t.vbk().appliedBlockCount : 0));
   return sum;
 }
+#ifdef UNEQUAL
+// C01 variant: X = 2-3-5 is heavier than Y = 2-4; a VTB endorsing Y's keystone block makes Y win POP fork resolution of VBK while
+// chain B is applied; after leaving B the VBK best chain is determined by the chain alone (no tie) and must be X again, exactly
+// as in an instance that only ever saw chain A.
+extern "C" __attribute__((noinline)) void h_realsp() {
+  RealWorld& w = newRealWorld();
+  W = &w;
+  AltBlockTree& t = *w.alt;
+  mineVbk(w, 1); mineVbk(w, 2); mineVbk(w, 2); mineVbk(w, 3);   // VBK 2; X: 3, 5 (on 3); Y: 4
+  mineBtc(w, 1);
+  addAltHeader(w, 2, 1); addAltHeader(w, 3, 2); addAltHeader(w, 4, 3); addAltHeader(w, 5, 2); addAltHeader(w, 6, 5);
+  bool xFirst = verif_cbool();
+  PopData p2; p2.context = xFirst ? std::vector<VbkBlock>{w.vbkById[2], w.vbkById[3], w.vbkById[5], w.vbkById[4]} : std::vector<VbkBlock>{w.vbkById[2], w.vbkById[4], w.vbkById[3], w.vbkById[5]};
+  PopData none;
+  t.acceptBlock(altHash(2), p2); t.acceptBlock(altHash(3), none); t.acceptBlock(altHash(4), none);
+  uint32_t where = verif_choice(5, 6);
+  PopData b5, b6;
+  (where == 5 ? b5 : b6).vtbs.push_back(makeVTB(w, 4, 4, 2, 2, 1));   // endorses Y's keystone block 4, contained in 4
+  t.acceptBlock(altHash(5), b5); t.acceptBlock(altHash(6), b6);
+  ValidationState s0;
+  verif_check(t.setState(altHash(4), s0), 1);
+  verif_check(t.vbk().getBestChain().tip()->getHash().data()[23] == 5, 2);     // absent POP, the heavier branch X is best
+  uint64_t d0 = digest();
+  ValidationState s1;
+  verif_check(t.setState(altHash(6), s1), 3);
+  if (t.vbk().getBestChain().tip()->getHash().data()[23] == 4) verif_cover(1);  // the VTB really flipped VBK fork resolution to Y
+  ValidationState s2;
+  verif_check(t.setState(altHash(4), s2), 4);
+  verif_check(t.vbk().getBestChain().tip()->getHash().data()[23] == 5, 5);     // back on A: the SP best chain depends only on the active chain
+  verif_check(digest() == d0, 6);
+  verif_cover(2);
+}
+#else
 extern "C" __attribute__((noinline)) void h_realsp() {
   RealWorld& w = newRealWorld();
   W = &w;
@@ -73,3 +106,4 @@ extern "C" __attribute__((noinline)) void h_realsp() {
   if (cont != vbkBest0) verif_cover(5);                                   // the VTB sat on the non-best VBK branch
   verif_observe(t.vbk().getBestChain().tip()->getHash().data()[23]);
 }
+#endif
